@@ -473,6 +473,9 @@ func ruleC19d(c *Ctx) {
 						if u, ok := y.(*ssa.UnOp); ok && u.Op == token.ARROW {
 							bad = "channel receive"
 						}
+						if ta, ok := y.(*ssa.TypeAssert); ok && !ta.CommaOk {
+							bad = "type assertion without comma-ok at " + p.ipos(ins) + " (panics when the type differs)"
+						}
 					case *ssa.If:
 						// nested decisions inside a tracing region are fine as long as the rest holds
 					case *ssa.Store:
